@@ -1,0 +1,34 @@
+//go:build verif
+
+package generator
+
+import "github.com/cloudwego/thriftgo/generator/backend"
+
+// VerifPoint, when set, is called at every trace point of asyncPostProcess.OnFinished
+// with the point's kind and the job index (-1 for the dispatcher's final phase). It may block
+// (park the calling goroutine) to let a test controller choose the interleaving.
+var VerifPoint func(kind string, job int)
+
+func verifPoint(kind string, job int) {
+	if f := VerifPoint; f != nil {
+		f(kind, job)
+	}
+}
+
+// VerifAsync exposes the unexported asyncPostProcess to verification harnesses.
+type VerifAsync struct{ p *asyncPostProcess }
+
+// NewVerifAsync creates an asyncPostProcess with an explicit concurrency limit.
+func NewVerifAsync(pp backend.PostProcessor, concurrency int) *VerifAsync {
+	p := newAsyncPostProcess(pp)
+	p.concurrency = concurrency
+	return &VerifAsync{p: p}
+}
+
+// Add queues a job.
+func (v *VerifAsync) Add(path, content string) { v.p.Add(path, content) }
+
+// OnFinished runs the real asyncPostProcess.OnFinished.
+func (v *VerifAsync) OnFinished(f func(path string, content []byte) error) error {
+	return v.p.OnFinished(f)
+}
